@@ -1,8 +1,10 @@
 // Harness for C14 (prepared statements; sequential + logical core): random operation sequences on the
 // REAL internal/lru.Cache and on the REAL preparedLRU holding real *inflightPrepare values (lookup-or-
 // insert critical section, flight completion incl. the failure path's remove-by-key, evictPreparedID,
-// clear), plus AST-level expectations on conn.go prepareStatement / executeQuery. Answers are compared
-// with the Lean models (lean/Model/LRU.lean, lean/Model/Prepare.lean).
+// clear), plus AST-level expectations on conn.go prepareStatement / executeQuery, plus the cache key itself
+// (near.go: the real keyFor on near-colliding byte-string triples; ops keyfor / keypair / keypairX and the
+// single-flight protocol over near-colliding groups, ops lookupx / completex / unprepx). Answers are compared
+// with the Lean models (lean/Model/LRU.lean, lean/Model/Prepare.lean); keypair with the specification.
 package main
 
 import (
